@@ -152,8 +152,10 @@ func (s *Server) Session(strm signaling.SRPCSignaling_SessionStream) error {
 	}
 
 	sess.seqno++
-	sess.broadcast()
+	// take the wait channel before broadcasting so that our own write loop runs
+	// once right away and announces the current epoch to this (just attached) peer.
 	waitCh := sess.getWaitCh()
+	sess.broadcast()
 
 	s.mtx.Unlock()
 
